@@ -1,0 +1,16 @@
+//go:build verif
+
+package utils
+
+// Contracts for govc (see /verif/DESIGN.md). Compiled only with -tags verif.
+// Trusted frames for the watermark entry points used by the oracle: they touch only the
+// watermark's own state.
+
+//@ func (*WaterMark).SetDoneUntil
+//@   trusted
+//@   tag ghost-pure
+//@   modifies nothing
+//@ func (*WaterMark).SetLastIndex
+//@   trusted
+//@   tag ghost-pure
+//@   modifies nothing
